@@ -131,7 +131,7 @@ def run(tier, seed, replay):
                     "{start, middle, end of file} x %d tab/text prefixes" % (5 if thorough else 3),
                     len(cases), fails, nontrivial=len({(c["kind"], c["w"], c["pos"]) for c in cases}),
                     samples=[{"kind": c["kind"], "w": c["w"], "text": c["text"][:120]} for c in cases[:3]], time_s=dt)
-    explained = any(i.status == "failed" for i in chk.items) or chk.known_printed
+    explained = chk.has_unlisted_failure()
     for c, m in fails:
         if not explained:
             chk.report_violation("C03.bounded.line_width", {
